@@ -14,29 +14,48 @@ carries the received bytes unchanged.
 namespace Scion.C44
 open Scion.Dispatcher Scion.Wire Scion.WireExt Scion.Util Scion
 
-/-- the header the decision is based on is the decoded SCION header of the datagram -/
+/-- the header the decision is based on is the decoded SCION header of the datagram (decoded as
+the dispatcher's recycled layer does: unknown path types are carried as an opaque path) -/
 theorem parsed_hdr_is_decoded (data : Bytes) (p : Parsed) (h : parseLayers data = some p) :
-    ∃ payload, decodeSCION data = .ok (p.hdr, payload) := by
+    ∃ payload, decodeSCIONRecycle data = .ok (p.hdr, payload, p.rawPath) := by
   unfold parseLayers at h
   split at h
   · cases h
-  · rename_i hdr pl hd
-    have key : ∀ n prev e2e nh d q, parseL4 hdr n prev e2e nh d = some q → q.hdr = hdr := by
+  · rename_i hdr pl rp hd
+    have key : ∀ n prev e2e nh d q, parseL4 hdr rp n prev e2e nh d = some q →
+        q.hdr = hdr ∧ q.rawPath = rp := by
       intro n prev e2e nh d q hq
       unfold parseL4 at hq
       repeat' split at hq
-      all_goals first | cases hq; rfl | cases hq
-    have key2 : ∀ n prev nh d q, parseE2E hdr n prev nh d = some q → q.hdr = hdr := by
+      all_goals first | (cases hq; exact ⟨rfl, rfl⟩) | cases hq
+    have key2 : ∀ n prev nh d q, parseE2E hdr rp n prev nh d = some q →
+        q.hdr = hdr ∧ q.rawPath = rp := by
       intro n prev nh d q hq
       unfold parseE2E at hq
       repeat' split at hq
-      all_goals first | (cases hq; rfl) | cases hq | exact key _ _ _ _ _ _ hq
+      all_goals first | (cases hq; exact ⟨rfl, rfl⟩) | cases hq | exact key _ _ _ _ _ _ hq
     refine ⟨pl, ?_⟩
-    have : p.hdr = hdr := by
+    have : p.hdr = hdr ∧ p.rawPath = rp := by
       repeat' split at h
-      all_goals first | (cases h; rfl) | cases h | exact key2 _ _ _ _ _ h
-    rw [this]
+      all_goals first | (cases h; exact ⟨rfl, rfl⟩) | cases h | exact key2 _ _ _ _ _ h
+    rw [this.1, this.2]
     exact hd
+
+/-- for the four known path types the recycled layer decodes exactly as `Wire.decodeSCION` -/
+theorem recycle_known_path (data : Bytes) (h : Hdr) (payload : Bytes)
+    (hd : decodeSCIONRecycle data = .ok (h, payload, false)) :
+    decodeSCION data = .ok (h, payload) := by
+  unfold decodeSCIONRecycle at hd
+  split at hd
+  · cases hd
+  · split at hd
+    · split at hd
+      · cases hd
+      · rename_i h' p' he
+        cases hd
+        exact he
+    · repeat' split at hd
+      all_goals cases hd
 
 theorem mkReply_ne_fwd (hdr : Hdr) (typ : Nat) (e : Option Nat) (n : Nat) (ip : Bytes) (port : Nat) :
     mkReply hdr typ e n ≠ .fwd ip port := by
@@ -78,7 +97,9 @@ theorem forward_only_to_own_dst (cfg : Cfg) (data underlay ip : Bytes) (port : N
       · -- SCMP
         rename_i sh pl hl
         split at h
-        · exact absurd h (mkReply_ne_fwd _ _ _ _ _ _)
+        · split at h
+          · cases h
+          · exact absurd h (mkReply_ne_fwd _ _ _ _ _ _)
         · split at h
           · cases h
           · rename_i hdisp
@@ -159,7 +180,9 @@ theorem forward_port (cfg : Cfg) (data underlay ip : Bytes) (port : Nat)
       split at h
       · rename_i sh pl hl
         split at h
-        · exact absurd h (mkReply_ne_fwd _ _ _ _ _ _)
+        · split at h
+          · cases h
+          · exact absurd h (mkReply_ne_fwd _ _ _ _ _ _)
         · rename_i hreq
           split at h
           · cases h
@@ -198,7 +221,7 @@ function on or off. -/
 theorem info_request_reply_to_prev_hop (cfg : Cfg) (data underlay : Bytes) (rh : Hdr) (t : Nat)
     (e : Bool) (h : process cfg data underlay = .reply rh t e) :
     ∃ p sh pl, parseLayers data = some p ∧ p.last = .scmp sh pl ∧ (sh.typ = 128 ∨ sh.typ = 130) ∧
-      t = sh.typ + 1 ∧ rh.dstIA = p.hdr.srcIA ∧ rh.srcIA = p.hdr.dstIA ∧
+      p.rawPath = false ∧ t = sh.typ + 1 ∧ rh.dstIA = p.hdr.srcIA ∧ rh.srcIA = p.hdr.dstIA ∧
       repack p.hdr.cmn.srcType p.hdr.rawSrc = some (rh.cmn.dstType, rh.rawDst) ∧
       repack p.hdr.cmn.dstType p.hdr.rawDst = some (rh.cmn.srcType, rh.rawSrc) ∧
       reversePath p.hdr.cmn.pathType p.hdr.path = some (rh.cmn.pathType, rh.path) ∧
@@ -213,7 +236,10 @@ theorem info_request_reply_to_prev_hop (cfg : Cfg) (data underlay : Bytes) (rh :
       · rename_i sh pl hl
         split at h
         · rename_i hreq
-          refine ⟨p, sh, pl, hp, hl, hreq, ?_⟩
+          split at h
+          · cases h
+          rename_i hraw
+          refine ⟨p, sh, pl, hp, hl, hreq, by simpa using hraw, ?_⟩
           obtain ⟨h0, hh, rfl, rfl⟩ := mkReply_eq_reply h
           unfold replyHdr at hh
           split at hh
